@@ -41,6 +41,9 @@ import (
 )
 
 var run *common.Run
+
+// ociAutoSave: the documented AutoSaveIndex option of the OCI store, chosen per history from its seed
+var ociAutoSave = true
 var ctx = context.Background()
 
 // ---------- identities shared with the model ----------
@@ -71,6 +74,7 @@ func isManifestMT(mt string) bool { id, ok := mtFixed[mt]; return ok && id >= 1 
 var annSets = []map[string]string{nil, {"verif.a": "x"}, {"verif.a": "y", "verif.b": "z"}}
 
 type universe struct {
+	mu     sync.Mutex // dig/mt allocate ids and are called from goroutines
 	g      *dag.Graph
 	digID  map[digest.Digest]int
 	mtDyn  map[string]int
@@ -87,6 +91,8 @@ func newUniverse(g *dag.Graph) *universe {
 }
 
 func (u *universe) dig(d digest.Digest) int {
+	u.mu.Lock()
+	defer u.mu.Unlock()
 	if id, ok := u.digID[d]; ok {
 		return id
 	}
@@ -99,6 +105,8 @@ func (u *universe) mt(s string) int {
 	if id, ok := mtFixed[s]; ok {
 		return id
 	}
+	u.mu.Lock()
+	defer u.mu.Unlock()
 	if id, ok := u.mtDyn[s]; ok {
 		return id
 	}
@@ -108,12 +116,47 @@ func (u *universe) mt(s string) int {
 }
 
 // name 5 is a second name for the path of name 1 (the model's path_of)
-var fileNames = []string{"f1.txt", "dir/f2.bin", "f3", "dir/sub/f4.json", "./f1.txt"}
+// name 6 leaves the working directory: resolveWritePath refuses it (the model's bad_name)
+var fileNames = []string{"f1.txt", "dir/f2.bin", "f3", "dir/sub/f4.json", "./f1.txt", "../x"}
 
 func pathOfName(name string) string { return filepath.Clean(name) }
 
+// restoreErr: the error comes from restoreDuplicates, i.e. after the pushed content was stored
+func restoreErr(err error) bool {
+	return err != nil && strings.Contains(err.Error(), "failed to restore duplicated file")
+}
+
+func nameIndex(name string) int {
+	for i, n := range fileNames {
+		if n == name {
+			return i + 1
+		}
+	}
+	return 99
+}
+
 // annID numbers annotation sets: 8*titleIndex + base set (0 none, 1, 2); 7 = unknown.
+// richFields: annotation-set id 3 stands for a descriptor that also carries ArtifactType,
+// Platform and URLs (Tag must keep them, Resolve must return them)
+func setRich(d *ocispec.Descriptor) {
+	d.ArtifactType = "application/vnd.verif.rich"
+	d.Platform = &ocispec.Platform{Architecture: "amd64", OS: "linux"}
+	d.URLs = []string{"https://example.invalid/blob"}
+}
+
+func isRich(d ocispec.Descriptor) bool {
+	return d.ArtifactType == "application/vnd.verif.rich" && d.Platform != nil && d.Platform.Architecture == "amd64" &&
+		d.Platform.OS == "linux" && len(d.URLs) == 1 && d.URLs[0] == "https://example.invalid/blob" && len(d.Data) == 0
+}
+
 func annID(d ocispec.Descriptor) int {
+	if isRich(d) {
+		d.URLs, d.Platform, d.ArtifactType = nil, nil, ""
+		if id := annID(d); id%8 == 0 {
+			return id + 3
+		}
+		return 7
+	}
 	if len(d.URLs) > 0 || d.Platform != nil || d.ArtifactType != "" || len(d.Data) > 0 {
 		return 7
 	}
@@ -199,6 +242,13 @@ func (u *universe) descOf(o Op) ocispec.Descriptor {
 			d.MediaType = "application/octet-stream"
 		}
 	}
+	if o.Ann == 3 {
+		setRich(&d)
+		if o.Name > 0 {
+			d.Annotations = map[string]string{ocispec.AnnotationTitle: fileNames[o.Name-1]}
+		}
+		return d
+	}
 	if o.Ann > 0 || o.Name > 0 {
 		d.Annotations = map[string]string{}
 		for k, v := range annSets[o.Ann] {
@@ -241,8 +291,12 @@ func (u *universe) linksTok(b []byte) string {
 				return "-"
 			}
 			var ks []string
-			for _, s := range n.Succ {
-				ks = append(ks, u.keyTok(u.g.Nodes[s].Desc))
+			for i, s := range n.Succ {
+				k := u.keyTok(u.g.Nodes[s].Desc)
+				if i < len(n.SuccTitles) && n.SuccTitles[i] != "" {
+					k += fmt.Sprintf("@%d", nameIndex(n.SuccTitles[i]))
+				}
+				ks = append(ks, k)
 			}
 			return strings.Join(ks, "+")
 		}
@@ -305,6 +359,7 @@ func newStore(kind string) (target, func()) {
 			panic(err)
 		}
 		s.AutoGC = false // AutoGC / GC belong to C09
+		s.AutoSaveIndex = ociAutoSave
 		return s, func() { os.RemoveAll(dir) }
 	}
 	if strings.HasPrefix(kind, "file") && len(kind) == 6 {
@@ -344,6 +399,8 @@ func errTok(err error) string {
 		return "err:dupname"
 	case errors.Is(err, file.ErrOverwriteDisallowed):
 		return "err:overwrite"
+	case errors.Is(err, file.ErrPathTraversalDisallowed):
+		return "err:traversal"
 	}
 	return "err:other(" + strings.ReplaceAll(err.Error(), " ", "_") + ")"
 }
@@ -357,6 +414,7 @@ type result struct {
 	descs []ocispec.Descriptor
 	tags  []string
 	ok    bool
+	tagsAfter []string // Tags(last) for the last of the operation
 }
 
 func (u *universe) apply(t target, o Op) result {
@@ -428,6 +486,12 @@ func (u *universe) apply(t target, o Op) result {
 		if err != nil {
 			return result{tok: errTok(err), err: err}
 		}
+		var after []string
+		if o.Ref != "" { // Tags(last): judged by the oracle only (the model's Tags takes no argument)
+			if err := ft.Tags(ctx, o.Ref, func(ts []string) error { after = append(after, ts...); return nil }); err != nil {
+				return result{tok: errTok(err), err: err}
+			}
+		}
 		var rs [][2]int
 		for _, s := range tags {
 			rs = append(rs, refSortKey(u.refTok(s)))
@@ -437,7 +501,7 @@ func (u *universe) apply(t target, o Op) result {
 		for _, r := range rs {
 			toks = append(toks, refFromKey(r))
 		}
-		return result{tok: "L:" + strings.Join(toks, ";"), tags: tags}
+		return result{tok: "L:" + strings.Join(toks, ";"), tags: tags, tagsAfter: after}
 	}
 	panic("op kind " + o.K)
 }
@@ -506,12 +570,13 @@ type reference struct {
 	noOverwrite bool
 	everTagged  map[string]bool // digests some reference has moved away from
 	pathDigest  map[string]string // path -> digest of the named content written there
+	digestPath  map[string]string // digest -> path of the file it is read from (digestToPath)
 	clobbered   map[string]bool   // digests whose file was overwritten/removed through an aliasing name
 }
 
 func newReference(kind string, u *universe) *reference {
 	r := &reference{kind: kind, u: u, content: map[string]stored{}, tags: map[string]ocispec.Descriptor{},
-		names: map[string]bool{}, byDigest: map[string]stored{}, pathDigest: map[string]string{}, clobbered: map[string]bool{}, everTagged: map[string]bool{}}
+		names: map[string]bool{}, byDigest: map[string]stored{}, pathDigest: map[string]string{}, digestPath: map[string]string{}, clobbered: map[string]bool{}, everTagged: map[string]bool{}}
 	if strings.HasPrefix(kind, "file") {
 		r.isFile = true
 		r.ignore = kind[4] == '1'
@@ -546,6 +611,9 @@ func plainEq(a, b ocispec.Descriptor) bool {
 }
 
 func annEq(a, b ocispec.Descriptor) bool {
+	if isRich(a) != isRich(b) || a.ArtifactType != b.ArtifactType || len(a.URLs) != len(b.URLs) || (a.Platform == nil) != (b.Platform == nil) {
+		return false
+	}
 	if len(a.Annotations) != len(b.Annotations) {
 		return false
 	}
@@ -555,6 +623,85 @@ func annEq(a, b ocispec.Descriptor) bool {
 		}
 	}
 	return true
+}
+
+// restore replays restoreDuplicates on the reference: every titled successor of the manifest
+// whose name does not exist yet and whose content is present becomes a file of that name.
+// Returns the reason of the first failure ("" = none).
+func (r *reference) restore(node int) string {
+	nd := r.u.g.Nodes[node]
+	for i, sidx := range nd.Succ {
+		if i >= len(nd.SuccTitles) || nd.SuccTitles[i] == "" {
+			continue
+		}
+		title := nd.SuccTitles[i]
+		if r.names[title] {
+			continue
+		}
+		sd := r.u.g.Nodes[sidx].Desc
+		st, ok := r.lookup(sd)
+		if !ok {
+			continue
+		}
+		if title == "../x" {
+			return "traversal"
+		}
+		path := pathOfName(title)
+		if r.pathDigest[path] != "" && r.noOverwrite {
+			return "overwrite"
+		}
+		if r.clobbered[string(sd.Digest)] {
+			return "clobbered" // the file this digest points to holds other bytes: the copy does not verify
+		}
+		if r.digestPath[string(sd.Digest)] == path && len(st.bytes) > 0 {
+			// the second name resolves to the very file the content is read from: os.Create truncates it
+			r.clobbered[string(sd.Digest)] = true
+			return "clobbered"
+		}
+		if victim := r.pathDigest[path]; victim != "" && victim != string(sd.Digest) {
+			r.clobbered[victim] = true
+		}
+		r.names[title] = true
+		r.pathDigest[path] = string(sd.Digest)
+		r.digestPath[string(sd.Digest)] = path
+		nd2 := sd
+		nd2.Annotations = map[string]string{ocispec.AnnotationTitle: title}
+		ns := stored{desc: nd2, bytes: st.bytes, node: sidx}
+		r.byDigest[string(sd.Digest)] = ns
+		r.named = append(r.named, ns)
+	}
+	return ""
+}
+
+// afterStore judges what follows a store in file.Store.Push: restoreDuplicates, graph.Index.
+func (r *reference) afterStore(o Op, d ocispec.Descriptor, res result, st *stored) *failure {
+	reason := ""
+	if isManifestMT(d.MediaType) {
+		reason = r.restore(o.Node)
+	}
+	if reason == "" && r.clobbered[string(d.Digest)] && res.err != nil {
+		// restoring a titled successor overwrote the manifest's own file through a second name
+		st.noIndex = true
+		return &failure{"file-name-alias-overwrite", fmt.Sprintf("push %s => %v: a successor was restored onto the file of the manifest itself (second name for its path)", o, res.err)}
+	}
+	if reason == "" {
+		if res.err != nil {
+			return &failure{"push-refused", fmt.Sprintf("push of absent valid content %s failed: %v", o, res.err)}
+		}
+		return nil
+	}
+	if reason == "clobbered" {
+		st.noIndex = true
+		return &failure{"file-name-alias-overwrite", fmt.Sprintf("push %s => %v: a titled successor could not be restored from a file that was overwritten through a second name", o, res.err)}
+	}
+	// the property: a failed operation changes nothing.  Here the content is already stored
+	// (and earlier successors restored) when restoreDuplicates fails, and it is never indexed.
+	st.noIndex = true
+	run.Count("file/pattern/restore-fails-" + reason)
+	if !restoreErr(res.err) {
+		return &failure{"restore-outcome", fmt.Sprintf("push %s: restoring the titled successors should fail (%s), got %v", o, reason, res.err)}
+	}
+	return &failure{"file-restore-failed-after-store", fmt.Sprintf("push %s failed (%v) after the content was stored: Exists answers true, a re-push is already-exists, Predecessors never lists it", o, res.err)}
 }
 
 // expectedPreds: stored manifests (stored under a manifest media type) whose successor list contains n.
@@ -603,6 +750,11 @@ func (r *reference) judge(o Op, res result) *failure {
 				if !errors.Is(res.err, file.ErrDuplicateName) {
 					return fail("push-duplicate-name", "push %s under an existing name returned %v, want duplicate-name", o, res.err)
 				}
+			case name == "../x":
+				// resolveWritePath refuses a name that leaves the working directory
+				if !errors.Is(res.err, file.ErrPathTraversalDisallowed) {
+					return fail("push-traversal", "push %s under a name outside the working directory returned %v", o, res.err)
+				}
 			case r.pathDigest[pathOfName(name)] != "" && r.noOverwrite:
 				// a second name for a path that already holds a file: DisableOverwrite refuses it
 				if !errors.Is(res.err, file.ErrOverwriteDisallowed) {
@@ -616,26 +768,30 @@ func (r *reference) judge(o Op, res result) *failure {
 					r.clobbered[victim] = true // os.Create truncated the other name's file
 				}
 			default:
+				if errors.Is(res.err, file.ErrOverwriteDisallowed) && r.pathDigest[pathOfName(name)] == "" && !restoreErr(res.err) {
+					return fail("failed-push-left-file", "push %s refused with overwrite-disallowed: an earlier failed push left a file behind", o)
+				}
 				if victim := r.pathDigest[pathOfName(name)]; victim != "" && victim != string(d.Digest) {
 					r.clobbered[victim] = true // the other name's file is overwritten
 				}
 				r.pathDigest[pathOfName(name)] = string(d.Digest)
-				if errors.Is(res.err, file.ErrOverwriteDisallowed) {
-					return fail("failed-push-left-file", "push %s refused with overwrite-disallowed: an earlier failed push left a file behind", o)
-				}
-				if res.err != nil {
-					return fail("push-refused", "push of absent valid content %s failed: %v", o, res.err)
-				}
+				r.digestPath[string(d.Digest)] = pathOfName(name)
 				r.names[name] = true
 				st := stored{desc: d, bytes: b, node: o.Node}
 				r.byDigest[string(d.Digest)] = st
+				f := r.afterStore(o, d, res, &st)
 				r.named = append(r.named, st)
+				return f
 			}
 			return nil
 		}
 		if r.isFile && r.ignore {
 			// the content is discarded; a manifest is still read and verified (to restore
 			// titled successors), so bytes that do not match may be refused
+			if valid && isManifestMT(d.MediaType) {
+				st := stored{desc: d, bytes: b, node: o.Node, noIndex: true}
+				return r.afterStore(o, d, res, &st) // nothing is stored, but the titled successors are restored
+			}
 			if res.err != nil && (valid || !isManifestMT(d.MediaType)) {
 				return fail("push-ignored", "IgnoreNoName push %s returned %v", o, res.err)
 			}
@@ -649,34 +805,55 @@ func (r *reference) judge(o Op, res result) *failure {
 				return fail("push-present", "push of present content %s returned %v, want already-exists", o, res.err)
 			}
 		case !valid:
-			if res.err == nil {
-				if r.isFile && d.Size >= 0 && int64(len(b)) > d.Size && digest.FromBytes(b[:d.Size]) == d.Digest {
-					// content.LimitedStorage cuts the reader at Size: the trailing bytes are never seen
-					r.content[r.key(d)] = stored{desc: d, bytes: b[:d.Size], node: o.Node}
-					return fail("file-unnamed-push-trailing-data-accepted", "unnamed push %s with trailing data was accepted by the fallback storage (fetch returns a prefix of the pushed bytes)", o)
+			if r.isFile && d.Size >= 0 && int64(len(b)) > d.Size && digest.FromBytes(b[:d.Size]) == d.Digest {
+				// (whatever Push returns afterwards, the fallback storage has stored the prefix by now)
+				// content.LimitedStorage cuts the reader at Size: the trailing bytes are never seen
+				st := stored{desc: d, bytes: b[:d.Size], node: o.Node}
+				f := r.afterStore(o, d, res, &st)
+				r.content[r.key(d)] = st
+				if f != nil && f.sig != "push-refused" {
+					return f
 				}
+				return fail("file-unnamed-push-trailing-data-accepted", "unnamed push %s with trailing data was accepted by the fallback storage (fetch returns a prefix of the pushed bytes)", o)
+			}
+			if res.err == nil {
 				return fail("push-invalid-accepted", "push %s with bytes not matching the descriptor was accepted", o)
 			}
 		case r.isFile && viaFile:
 			// the content is present (Exists answers true through the named file), yet the
 			// unnamed push goes to the fallback storage
-			if res.err == nil {
-				r.content[r.key(d)] = stored{desc: d, bytes: b, node: o.Node}
-				return fail("file-present-unnamed-push-accepted", "unnamed push %s of content already present through a named file was accepted", o)
+			if errors.Is(res.err, errdef.ErrAlreadyExists) {
+				return nil // refused, as the property demands
 			}
-			if !errors.Is(res.err, errdef.ErrAlreadyExists) {
-				if r.clobbered[string(d.Digest)] {
-					// the push went to the fallback storage, then Successors read the clobbered file back
-					r.content[r.key(d)] = stored{desc: d, bytes: b, node: o.Node, noIndex: true}
+			{
+				// the push went to the fallback storage; restoreDuplicates / graph.Index followed
+				wasClobbered := r.clobbered[string(d.Digest)]
+				st := stored{desc: d, bytes: b, node: o.Node}
+				f := r.afterStore(o, d, res, &st)
+				r.content[r.key(d)] = st
+				if f != nil && f.sig != "push-refused" {
+					return f
+				}
+				if res.err != nil && (wasClobbered || r.clobbered[string(d.Digest)]) {
+					st.noIndex = true
+					r.content[r.key(d)] = st
 					return fail("file-name-alias-overwrite", "unnamed push %s => %v: the file this digest points to was overwritten through a second name for its path", o, res.err)
 				}
-				return fail("push-present", "push of present content %s returned %v", o, res.err)
+				if res.err != nil {
+					return fail("push-present", "push of present content %s returned %v", o, res.err)
+				}
+				return fail("file-present-unnamed-push-accepted", "unnamed push %s of content already present through a named file was accepted", o)
 			}
 		default:
-			if res.err != nil {
+			st := stored{desc: d, bytes: b, node: o.Node}
+			var f *failure
+			if r.isFile {
+				f = r.afterStore(o, d, res, &st)
+			} else if res.err != nil {
 				return fail("push-refused", "push of absent valid content %s failed: %v", o, res.err)
 			}
-			r.content[r.key(d)] = stored{desc: d, bytes: b, node: o.Node}
+			r.content[r.key(d)] = st
+			return f
 		}
 	case "F":
 		d := u.descOf(o)
@@ -827,6 +1004,18 @@ func (r *reference) judge(o Op, res result) *failure {
 		if res.err != nil || strings.Join(res.tags, "\x00") != strings.Join(want, "\x00") {
 			return fail("tags", "tags = %q, want %q", res.tags, want)
 		}
+		if o.Ref != "" {
+			run.Count("oci/pattern/tags-last")
+			var wantAfter []string
+			for _, t := range want {
+				if t > o.Ref {
+					wantAfter = append(wantAfter, t)
+				}
+			}
+			if strings.Join(res.tagsAfter, "\x00") != strings.Join(wantAfter, "\x00") {
+				return fail("tags-last", "tags after %q = %q, want %q", o.Ref, res.tagsAfter, wantAfter)
+			}
+		}
 	}
 	return nil
 }
@@ -887,6 +1076,13 @@ func genUniverse(r *common.Rand, kind string, small bool) *universe {
 	o.Foreign = false
 	o.Twins = false
 	o.MaxBlob = 48
+	if strings.HasPrefix(kind, "file") && !small {
+		// manifests whose layer entries carry titles: restoreDuplicates creates those files.
+		// Sequential histories only: Push = store ; restoreDuplicates ; graph.Index is not atomic, and
+		// with titled successors a concurrent Tag/Push can fall between the store and the restore
+		// (observed: final states no sequential order produces) -- see level_note.
+		o.LayerTitles = []string{"f1.txt", "dir/f2.bin", "f3", "dir/sub/f4.json", "f3", "dir/f2.bin", "../x", "./f1.txt"}
+	}
 	return newUniverse(dag.Random(r, o))
 }
 
@@ -949,7 +1145,7 @@ func genOp(r *common.Rand, u *universe, kind string, h *hint) Op {
 		o.K = "T"
 		likelyPresent()
 		if r.Chance(1, 3) {
-			o.Ann = 1 + r.Intn(2)
+			o.Ann = 1 + r.Intn(3)
 		}
 		x := r.Intn(20)
 		switch {
@@ -982,16 +1178,25 @@ func genOp(r *common.Rand, u *universe, kind string, h *hint) Op {
 		}
 	default:
 		o.K = "L"
+		if r.Chance(2, 3) {
+			o.Ref = common.Pick(r, u.refs) // Tags(last)
+		}
 	}
 	o.Node = node
 	isFile := strings.HasPrefix(kind, "file")
 	if (kind == "mem" || isFile) && o.K != "Q" && r.Chance(1, 10) {
 		o.Var = 1 + r.Intn(2)
 	}
+	if kind == "oci" && (o.K == "F" || o.K == "E" || o.K == "T" || o.K == "D") && !u.g.Nodes[node].IsManifest() &&
+		u.g.Nodes[node].Desc.MediaType != "application/octet-stream" && r.Chance(1, 8) {
+		// the descriptor the store itself hands out for a plain blob: Resolve(<digest>) reports
+		// application/octet-stream (resolveBlob), whatever media type the blob was pushed with
+		o.Var = 2
+	}
 	if isFile && (o.K == "P" || o.K == "F" || o.K == "E" || o.K == "T") {
 		o.Name = homeName(node)
 		if r.Chance(1, 4) {
-			o.Name = r.Intn(6) // includes the aliasing name 5 now and then
+			o.Name = r.Intn(7) // includes the aliasing name 5 and the refused name 6 now and then
 		}
 	}
 	switch {
@@ -1021,6 +1226,10 @@ type histSpec struct {
 // ---------- sequential histories ----------
 
 func seqHistory(h histSpec) {
+	ociAutoSave = h.HSeed%3 != 0
+	if h.Kind == "oci" {
+		run.Count(fmt.Sprintf("oci/AutoSaveIndex=%v", ociAutoSave))
+	}
 	r := common.NewRand(h.HSeed)
 	u := genUniverse(r, h.Kind, false)
 	var ops []Op
@@ -1034,12 +1243,8 @@ func seqHistory(h histSpec) {
 	id := run.NewID()
 	var toks, outs, shown []string
 	reported := map[string]bool{}
+	tainted := false
 	report := func(f *failure, step int) {
-		if len(ref.clobbered) > 0 && f.sig != "file-name-alias-overwrite" {
-			// once a file has been clobbered through a second name for its path, every later
-			// discrepancy in this history is a consequence of that known defect
-			f = &failure{"file-name-alias-overwrite", "(after an alias overwrite) " + f.sig + ": " + f.msg}
-		}
 		if reported[f.sig] || len(reported) >= 4 {
 			return // each clause once per history
 		}
@@ -1058,6 +1263,22 @@ func seqHistory(h histSpec) {
 			}
 			return ""
 		}())
+		if len(ref.clobbered) > 0 {
+			// a file was overwritten through a second name for its path (known finding): from here on
+			// the reference no longer describes this store; only the mechanism itself is still judged
+			// (a fetch of a clobbered digest), everything else of this history is left to the
+			// model/implementation correspondence
+			if !tainted {
+				tainted = true
+				run.Count("file/alias-tainted-histories")
+			}
+			if o.K == "F" && ref.clobbered[string(u.descOf(o).Digest)] {
+				if f := ref.judge(o, res); f != nil && f.sig == "file-name-alias-overwrite" {
+					report(f, step)
+				}
+			}
+			return res
+		}
 		if f := ref.judge(o, res); f != nil {
 			report(f, step)
 		}
@@ -1065,6 +1286,9 @@ func seqHistory(h histSpec) {
 	}
 	probe := u.probeOps(h.Kind)
 	readBack := func() *failure {
+		if len(ref.clobbered) > 0 {
+			return nil
+		}
 		for _, p := range probe {
 			pr := u.apply(t, p)
 			if f := ref.judge(p, pr); f != nil {
@@ -1085,11 +1309,7 @@ func seqHistory(h histSpec) {
 		res := exec(o, i)
 		if sampled && res.err != nil {
 			if f := readBack(); f != nil {
-				sig := "failed-op-changed-state"
-				if f.sig == "file-name-alias-overwrite" {
-					sig = f.sig // the failed push went through the aliasing name: that mechanism
-				}
-				report(&failure{sig, fmt.Sprintf("after failed %s => %s: %s", o, res.tok, f.msg)}, i)
+				report(&failure{"failed-op-changed-state", fmt.Sprintf("after failed %s => %s: %s", o, res.tok, f.msg)}, i)
 			}
 		}
 	}
@@ -1227,7 +1447,7 @@ func concHistory(h histSpec) {
 	pushedDig, pushed, deleted := map[string]bool{}, map[string]bool{}, map[string]bool{}
 	for _, e := range evs {
 		d := u.descOf(e.op)
-		if e.op.K == "P" && e.res.err == nil && !(strings.HasPrefix(h.Kind, "file1") && e.op.Name == 0) {
+		if e.op.K == "P" && (e.res.err == nil || restoreErr(e.res.err)) && !(strings.HasPrefix(h.Kind, "file1") && e.op.Name == 0) {
 			pushed[ckey(e.op)] = true
 			pushedDig[string(d.Digest)] = true
 		}
@@ -1333,14 +1553,19 @@ func raceRound(h histSpec) {
 		for _, e := range evs {
 			shown = append(shown, fmt.Sprintf("round %d t%d[%d,%d] %s => %s", round, e.th, e.inv, e.resp, e.op, e.res.tok))
 			toks = append(toks, fmt.Sprintf("%d:%d:%d:%s=%s", e.th, e.inv, e.resp, u.opTok(e.op), e.res.tok))
-			if e.res.err == nil {
-				okn++
+			if e.res.err == nil || restoreErr(e.res.err) {
+				okn++ // stored (restoreDuplicates may fail afterwards: known finding)
 			} else if !errors.Is(e.res.err, errdef.ErrAlreadyExists) {
 				report("race-unexpected-error", fmt.Sprintf("%s => %s", e.op, e.res.tok))
 			}
 		}
 		run.Count(fmt.Sprintf("race-%s/successes=%d", h.Kind, okn))
-		if okn > 1 {
+		if okn > 1 && h.Kind == "oci" {
+			// os.Rename replaces an existing blob file on POSIX systems (the comment in storage.go expects
+			// a permission error): every racing push of the same descriptor succeeds
+			report("oci-racing-pushes-all-succeed", fmt.Sprintf("%d concurrent pushes of the same descriptor %s all succeeded", okn, o))
+		}
+		if okn > 1 && h.Kind != "oci" {
 			report("race-double-push-success", fmt.Sprintf("%d concurrent pushes of the same descriptor %s all succeeded: pushing content that is already present must be refused", okn, o))
 		}
 		base = int(clock.Load())
@@ -1409,7 +1634,7 @@ func main() {
 		for i := 0; i < nseq; i++ {
 			seqHistory(histSpec{Kind: kind, Mode: "seq", HSeed: run.Rand.U64() >> 12, NOps: nops})
 		}
-		if kind == "mem" || kind == "file00" {
+		if kind == "mem" || kind == "file00" || kind == "oci" {
 			for i := 0; i < run.Scale(60, 1500); i++ {
 				raceRound(histSpec{Kind: kind, Mode: "race", HSeed: run.Rand.U64() >> 12, NOps: 3 + run.Rand.Intn(3), Thr: 2 + run.Rand.Intn(3)})
 			}
@@ -1418,5 +1643,27 @@ func main() {
 			thr := 2 + run.Rand.Intn(3)
 			concHistory(histSpec{Kind: kind, Mode: "conc", HSeed: run.Rand.U64() >> 12, NOps: 6 + run.Rand.Intn(6), Thr: thr})
 		}
+	}
+	// coverage floors: a run in which a stream or a pattern the check relies on did not occur is a
+	// failure of the run (layer R), not a silent pass
+	floors := map[string]int{
+		"mem/P/ok": 100, "oci/P/ok": 100, "file00/P/ok": 100, "file01/P/ok": 100, "file10/P/ok": 20, "file11/P/ok": 20,
+		"oci/D/ok": 20, "oci/U/ok": 5, "oci/L/L": 20, "oci/pattern/delete-after-retag": 5, "oci/pattern/tags-last": 10,
+		"oci/AutoSaveIndex=false": 20, "oci/AutoSaveIndex=true": 20,
+		"file/pattern/restore-fails-traversal": 3, "file/alias-tainted-histories": 5,
+		"race-mem/successes=1": 20, "race-file00/successes=1": 20, "conc-mem/P": 50, "conc-oci/P": 50, "conc-file00/P": 50,
+		"mem/R/D": 50, "oci/R/D": 50, "file00/R/D": 20,
+	}
+	var missing []string
+	for k, min := range floors {
+		if run.Dist[k] < min {
+			missing = append(missing, fmt.Sprintf("%s=%d<%d", k, run.Dist[k], min))
+		}
+	}
+	if len(missing) > 0 {
+		sort.Strings(missing)
+		run.Finish()
+		fmt.Fprintln(os.Stderr, "coverage floor not reached: "+strings.Join(missing, " "))
+		os.Exit(3)
 	}
 }
